@@ -5,9 +5,9 @@
 name=$1; src=$2; props=$3
 dst=/verif/seeded/$name
 mkdir -p $dst
-cp $src/patch.diff $dst/patch.diff
-cp $src/demo.py $dst/demo.py 2>/dev/null
-cp $src/NOTES.md $dst/NOTES.md 2>/dev/null
+[ "$src" != "$dst" ] && cp $src/patch.diff $dst/patch.diff
+[ "$src" != "$dst" ] && cp $src/demo.py $dst/demo.py 2>/dev/null
+[ "$src" != "$dst" ] && cp $src/NOTES.md $dst/NOTES.md 2>/dev/null
 sv=/tmp/sv-$name
 git -C /repo worktree remove --force $sv 2>/dev/null
 git -C /repo worktree add -q --detach $sv HEAD
